@@ -1,24 +1,23 @@
-\* exhaustive TLC configuration for property C12 (protocol error with requests in flight; constants explained in RcProxy.tla)
+\* C01 with a client that stops reading once (client-side back-pressure: replies park in the outbound buffer; QUIT must wait for them)
 SPECIFICATION Spec
 CONSTANTS
   c1 = c1
   c2 = c2
-  Clients = {c1, c2}
+  Clients = {c1}
   Nodes = {"n1", "n2"}
   SlotNode <- Slot2
-  Menu <- MenuBad
-  MaxReq <- MR2x21
+  Menu <- MenuQuit
+  MaxReq <- MR1x3
   AnswerKinds <- AKok
   MaxMsg = 4
   TimeoutOn = FALSE
   MaxBkClose = 0
   AllowCliClose = FALSE
   MaxHops = 0
-  MaxBurst = 2
+  MaxBurst = 3
   CanonKinds = TRUE
   PoolAny = TRUE
-  MaxPause = 0
-SYMMETRY Symm
+  MaxPause = 1
 INVARIANTS NoViolation DoneMsgHasDoneFrags QueuedMsgsInUse LiveFragPeer
 VIEW view
 CHECK_DEADLOCK FALSE
